@@ -132,7 +132,7 @@ func vsRename(r *vu.Rng, c *vsCluster) {
 }
 
 // vsFileSetCase prints the C03/C04 style case: configuration texts (nginx.conf first), other paths, match keys.
-func vsFileSetCase(files map[string]string, plus bool) (string, map[string]any) {
+func vsFileSetCase(files map[string]string, plus bool, twins []string) (string, map[string]any) {
 	var texts []string
 	var others []string
 	for _, st := range vpStaticConf(plus) {
@@ -158,7 +158,21 @@ func vsFileSetCase(files map[string]string, plus bool) (string, map[string]any) 
 		sort.Strings(keys)
 	}
 	human := map[string]any{"files": files}
-	return vu.App("Case", vu.List(texts), vu.StrList(others), vu.StrList(keys)), human
+	return vu.App("Case", vu.List(texts), vu.StrList(others), vu.StrList(keys), vu.StrList(twins)), human
+}
+
+// c03Twins lists, for every namespace/name that both an HTTPRoute and a GRPCRoute of the state bear, the stem of the variable names
+// of their backend groups.
+func c03Twins(c *vsCluster) []string {
+	var twins []string
+	for _, a := range c.Routes {
+		for _, b := range c.Routes {
+			if !a.GRPC && b.GRPC && a.NS == b.NS && a.Name == b.Name {
+				twins = append(twins, strings.ReplaceAll("group_"+a.NS+"__"+a.Name+"_rule", "-", "_"))
+			}
+		}
+	}
+	return twins
 }
 
 func TestVerifC03(t *testing.T) {
@@ -228,6 +242,31 @@ func TestVerifC03(t *testing.T) {
 				break
 			}
 		}
+		// an HTTPRoute and a GRPCRoute of one namespace and name, attached alike; the first rule of one has several backends, of the
+		// other at most one
+		if r.Chance(1, 10) {
+			hi, gi := -1, -1
+			for k, rt := range c.Routes {
+				if rt.GRPC && gi < 0 && len(rt.Rules) > 0 {
+					gi = k
+				}
+				if !rt.GRPC && hi < 0 && len(rt.Rules) > 0 {
+					hi = k
+				}
+			}
+			if hi >= 0 && gi >= 0 {
+				c.Routes[gi].NS, c.Routes[gi].Name = c.Routes[hi].NS, c.Routes[hi].Name
+				c.Routes[gi].Parents = append([]vsParentRef(nil), c.Routes[hi].Parents...)
+				many, one := hi, gi
+				if r.Bool() {
+					many, one = gi, hi
+				}
+				c.Routes[many].Rules[0].Filters, c.Routes[one].Rules[0].Filters = nil, nil
+				c.Routes[many].Rules[0].Backends = []vsBackend{{Name: "svc-a", Port: 80, Weight: 1}, {Name: "svc-b", Port: 80, Weight: 3}}
+				c.Routes[one].Rules[0].Backends = []vsBackend{{Name: "svc-c", Port: 80, Weight: 1}}[:r.Intn(2)]
+				out.Tally("twins", "yes")
+			}
+		}
 		var extra []client.Object
 		var tags []string
 		withParams := false
@@ -255,7 +294,7 @@ func TestVerifC03(t *testing.T) {
 				}
 			}
 		}
-		term, human := vsFileSetCase(files, plus)
+		term, human := vsFileSetCase(files, plus, c03Twins(c))
 		human["cluster"] = c
 		human["extra_objects"] = extra
 		for _, tg := range tags {
